@@ -28,7 +28,18 @@ def ofBytes (l : List Nat) : Nat := l.foldl (fun n b => n * 256 + b) 1
 
 def lowerByte (b : Nat) : Nat := if 65 ≤ b && b ≤ 90 then b + 32 else b
 
-def lower (n : Nat) : Nat := ofBytes ((bytes n).map lowerByte)
+/-- Number of bytes of the string with code `n` (the leading 1 sits at bit 8·length). -/
+def blen (n : Nat) : Nat := n.log2 / 8
+
+/-- One pass from the last byte to the first, in arithmetic only (no lists: the kernel evaluates this
+    for every table entry). -/
+def lowerAux : Nat → Nat → Nat → Nat → Nat
+  | 0, n, acc, mult => acc + n * mult
+  | fuel + 1, n, acc, mult =>
+    if n < 256 then acc + n * mult
+    else lowerAux fuel (n / 256) (acc + lowerByte (n % 256) * mult) (mult * 256)
+
+def lower (n : Nat) : Nat := lowerAux (blen n + 1) n 0 1
 
 /-- One-byte white space: \t \n \v \f \r, \x1c-\x1f, space. -/
 def ws1 (b : Nat) : Bool := (9 ≤ b && b ≤ 13) || (28 ≤ b && b ≤ 32)
@@ -36,63 +47,51 @@ def ws1 (b : Nat) : Bool := (9 ≤ b && b ≤ 13) || (28 ≤ b && b ≤ 32)
 /-- third byte of E2 80 xx white space: U+2000-U+200A, U+2028, U+2029, U+202F -/
 def wsE280 (c : Nat) : Bool := (0x80 ≤ c && c ≤ 0x8A) || c == 0xA8 || c == 0xA9 || c == 0xAF
 
-/-- Length of the white-space character a byte list starts with (0 = none). -/
-def wsPrefix (l : List Nat) : Nat :=
-  match l with
-  | [] => 0
-  | b :: t =>
-    if ws1 b then 1
-    else match t with
-      | [] => 0
-      | c :: t' =>
-        if b == 0xC2 then (if c == 0x85 || c == 0xA0 then 2 else 0)
-        else match t' with
-          | [] => 0
-          | d :: _ =>
-            if b == 0xE1 && c == 0x9A && d == 0x80 then 3
-            else if b == 0xE2 && c == 0x80 && wsE280 d then 3
-            else if b == 0xE2 && c == 0x81 && d == 0x9F then 3
-            else if b == 0xE3 && c == 0x80 && d == 0x80 then 3
-            else 0
+/-- `b c d` is the UTF-8 form of U+1680, U+2000-200A, U+2028, U+2029, U+202F, U+205F or U+3000. -/
+def ws3 (b c d : Nat) : Bool :=
+  (b == 0xE1 && c == 0x9A && d == 0x80) || (b == 0xE2 && c == 0x80 && wsE280 d) ||
+  (b == 0xE2 && c == 0x81 && d == 0x9F) || (b == 0xE3 && c == 0x80 && d == 0x80)
 
-/-- Length of the white-space character a REVERSED byte list starts with (0 = none). -/
-def wsSuffix (l : List Nat) : Nat :=
-  match l with
-  | [] => 0
-  | d :: t =>
-    if ws1 d then 1
-    else match t with
-      | [] => 0
-      | c :: t' =>
-        if c == 0xC2 then (if d == 0x85 || d == 0xA0 then 2 else 0)
-        else match t' with
-          | [] => 0
-          | b :: _ =>
-            if b == 0xE1 && c == 0x9A && d == 0x80 then 3
-            else if b == 0xE2 && c == 0x80 && wsE280 d then 3
-            else if b == 0xE2 && c == 0x81 && d == 0x9F then 3
-            else if b == 0xE3 && c == 0x80 && d == 0x80 then 3
-            else 0
+/-- Length in bytes of the white-space character the string ends with (0: none). -/
+def wsEnd (n : Nat) : Nat :=
+  if n < 256 then 0
+  else if ws1 (n % 256) then 1
+  else if n < 65536 then 0
+  else if (n / 256) % 256 == 0xC2 then (if n % 256 == 0x85 || n % 256 == 0xA0 then 2 else 0)
+  else if n < 16777216 then 0
+  else if ws3 ((n / 65536) % 256) ((n / 256) % 256) (n % 256) then 3
+  else 0
 
-/-- Drop leading white space (bytes in reading order). -/
-def dropWs : Nat → List Nat → List Nat
-  | 0, l => l
-  | fuel + 1, l => match wsPrefix l with
-    | 0 => l
-    | k => dropWs fuel (l.drop k)
+def rstrip : Nat → Nat → Nat
+  | 0, n => n
+  | fuel + 1, n =>
+    match wsEnd n with
+    | 0 => n
+    | k => rstrip fuel (n / 256 ^ k)
 
-/-- Drop trailing white space; the argument is the byte list REVERSED. -/
-def dropWsRev : Nat → List Nat → List Nat
-  | 0, l => l
-  | fuel + 1, l => match wsSuffix l with
-    | 0 => l
-    | k => dropWsRev fuel (l.drop k)
+/-- byte `i` (0 = first) of a string of `len` bytes -/
+def byteAt (n len i : Nat) : Nat := (n / 256 ^ (len - 1 - i)) % 256
 
-def stripBytes (l : List Nat) : List Nat :=
-  let a := dropWs l.length l
-  (dropWsRev a.length a.reverse).reverse
+/-- Length in bytes of the white-space character the string starts with (0: none). -/
+def wsStart (n : Nat) : Nat :=
+  if blen n == 0 then 0
+  else if ws1 (byteAt n (blen n) 0) then 1
+  else if blen n < 2 then 0
+  else if byteAt n (blen n) 0 == 0xC2 then
+    (if byteAt n (blen n) 1 == 0x85 || byteAt n (blen n) 1 == 0xA0 then 2 else 0)
+  else if blen n < 3 then 0
+  else if ws3 (byteAt n (blen n) 0) (byteAt n (blen n) 1) (byteAt n (blen n) 2) then 3
+  else 0
 
-def strip (n : Nat) : Nat := ofBytes (stripBytes (bytes n))
+def lstrip : Nat → Nat → Nat
+  | 0, n => n
+  | fuel + 1, n =>
+    match wsStart n with
+    | 0 => n
+    | k => lstrip fuel (256 ^ (blen n - k) + n % 256 ^ (blen n - k))
+
+/-- `str.strip()` -/
+def strip (n : Nat) : Nat := rstrip (blen n + 1) (lstrip (blen n + 1) n)
 
 def digitsAux : Nat → Nat → List Nat → List Nat
   | 0, _, acc => acc
